@@ -40,9 +40,32 @@ func (a *feedAdapter) Accept() (io.ReadWriteCloser, error) {
 		return nil, errors.New("listener closed")
 	}
 }
-func (a *feedAdapter) PrepareConnection(io.ReadWriteCloser) error { return nil }
+
+// PrepareConnection is the first thing the handler does with a connection that passed the limit
+// check: it marks that connection as admitted (exact per-connection outcome).
+func (a *feedAdapter) PrepareConnection(c io.ReadWriteCloser) error {
+	if lc, ok := c.(*localConn); ok {
+		lc.decide(true)
+	}
+	return nil
+}
 func (a *feedAdapter) GetProtocol() string                        { return "tcp" }
 func (a *feedAdapter) Close() error                               { a.once.Do(func() { close(a.closed) }); return nil }
+
+// localConn is the local connection handed to the handler. Its outcome is decided exactly once:
+// admitted (the handler called PrepareConnection, i.e. it passed the limit check) or refused (the
+// handler closed it without ever getting there). A close AFTER admission (tunnel ended) is not an outcome.
+type localConn struct {
+	net.Conn
+	once     sync.Once
+	admitted atomic.Bool
+	done     chan struct{}
+}
+
+func (l *localConn) decide(admitted bool) {
+	l.once.Do(func() { l.admitted.Store(admitted); close(l.done) })
+}
+func (l *localConn) Close() error { l.decide(false); return l.Conn.Close() }
 
 // tunnelConn is the client's end of a dialed tunnel; the gauge counts it from the dial
 // until its first Close.
@@ -152,6 +175,7 @@ type mappingRig struct {
 	peers    []net.Conn
 	fed      int
 	timedOut bool
+	admitted int // connections that passed the limit check (per-connection outcome)
 }
 
 // limitSource: "mapping" puts the limit into MappingConfig.MaxConnections; "user" leaves
@@ -178,36 +202,46 @@ func newMappingRig(limit int, source string) (*mappingRig, error) {
 	return r, nil
 }
 
-// feed offers n connections at once and waits until each was either dialed through or
-// closed by the handler. Returns false on a (generous) timeout.
+// feed offers n connections at once and waits until each has its outcome (admitted by the limit check
+// or refused), then until every admitted connection has reached DialTunnel. Returns false on a
+// (generous) timeout.
 func (r *mappingRig) feed(n int) bool {
+	var batch []*localConn
 	for i := 0; i < n; i++ {
 		l1, l2 := net.Pipe()
 		r.peers = append(r.peers, l2)
-		go func() {
-			// the handler closing the local connection is the refusal signal
-			var b [1]byte
-			if _, err := l2.Read(b[:]); err != nil {
-				r.refused.Add(1)
-				r.cl.signal()
-			}
-		}()
-		r.ad.ch <- l1
+		lc := &localConn{Conn: l1, done: make(chan struct{})}
+		batch = append(batch, lc)
+		r.ad.ch <- lc
 	}
 	r.fed += n
-	return r.settle()
-}
-
-// settle waits until every offered connection has an outcome (refusals after close() are not counted).
-func (r *mappingRig) settle() bool {
 	deadline := time.After(5 * time.Second)
-	for int(r.cl.dials.Load())+int(r.refused.Load()) < r.fed {
+	for _, lc := range batch {
 		select {
-		case <-r.cl.event:
-		case <-time.After(2 * time.Millisecond):
+		case <-lc.done:
 		case <-deadline:
 			r.timedOut = true
 			return false
+		}
+		if lc.admitted.Load() {
+			r.admitted++
+		} else {
+			r.refused.Add(1)
+		}
+	}
+	return r.awaitDials()
+}
+
+// awaitDials waits until every admitted connection has been dialed through.
+func (r *mappingRig) awaitDials() bool {
+	for wait := time.Now().Add(5 * time.Second); int(r.cl.dials.Load()) < r.admitted; {
+		if time.Now().After(wait) {
+			r.timedOut = true
+			return false
+		}
+		select {
+		case <-r.cl.event:
+		case <-time.After(500 * time.Microsecond):
 		}
 	}
 	return true
@@ -246,7 +280,7 @@ func roundMappingCap(t vkit.TB, c Case) {
 	if source == "user-quota-unavailable" {
 		k = 0
 	}
-	admittedBefore := func() int { return int(r.cl.dials.Load()) }
+	admittedBefore := func() int { return r.admitted }
 	if c.Mode == "sequential" {
 		// a stream of long-lived connections, one at a time
 		for i := 0; i < c.Feed; i++ {
@@ -274,15 +308,8 @@ func roundMappingCap(t vkit.TB, c Case) {
 			return
 		}
 	}
-	// settle() counts a closed local connection as an outcome, but a connection whose tunnel was
-	// dialed and then ended early is closed too: when nothing may be refused (unlimited, or still
-	// below the limit) give the handlers that are still on their way to DialTunnel time to get there
-	// before judging "never dialed".
-	if k == 0 || r.fed <= k {
-		for wait := time.Now().Add(2 * time.Second); admittedBefore() < r.fed && time.Now().Before(wait); {
-			time.Sleep(time.Millisecond)
-		}
-	}
+	// feed() returned only after every offered connection had its own outcome and every admitted one was
+	// dialed, so "admitted" below is exact (a connection closed after its tunnel was dialed is not a refusal)
 	admitted := admittedBefore()
 	openMax := r.cl.open.Max()
 	detail := fmt.Sprintf("MaxConnections=%d (from %s), %d long-lived connections offered (%s): %d tunnels dialed, at most %d open at the same time, %d refused",
